@@ -39,7 +39,7 @@ def _shrink_overlapping_windows_numpy(begins, lengths) -> bool:
     overlaps = np.zeros_like(ends, dtype=np.int64)
     np.maximum(ends[:-1].view(np.int64) - begins[1:].view(np.int64), 0, out=overlaps[1:])
 
-    if np.any(overlaps >= lengths):
+    if np.any((overlaps > 0) & (overlaps >= lengths)):
         raise ValueError("Overlap is bigger than measurement window")
     if np.any(overlaps > 0):
         begins += overlaps.view(begins.dtype)
